@@ -67,7 +67,7 @@ def base_env(bins, home=None, now=PINNED_NOW, clocklog=None, gitlog=None, gitfai
     return env
 
 
-def run_zerv(bins, argv, stdin=None, env=None, cwd=None, timeout=30):
+def run_zerv(bins, argv, stdin=None, env=None, cwd=None, timeout=60):
     """Run the real zerv binary. Returns dict(exit, out, err, timeout)."""
     if env is None:
         env = base_env(bins)
